@@ -140,7 +140,7 @@ def check(ctx):
 
     def _is_dup(pc):
         # the raise whose path condition looks at duplicates / counts of rows of a frame (any of the pandas idioms)
-        return any(any(w in ir.show(c[0], maxdepth=12) for w in ("value_counts", "duplicated", "is_unique", "nunique", "drop_duplicates")) for c in pc)
+        return any(any(w in ir.show(c[0], maxdepth=12) for w in ("value_counts", "duplicated", "is_unique", "nunique", "drop_duplicates")) for c in pc[-1:])
 
     gate = [(pc, t, n) for pc, t, n in s.raises
             if "ModelNotEnoughSubunitsException" in ir.show(t, maxdepth=3) and not _is_dup(pc)]
@@ -185,7 +185,7 @@ def check(ctx):
                 ctx.ob("C14.R2.max", f"{ge.qualname}|minimum is max over alphas", okm, ge.where(n), why)
         ctx.ob("C14.R1.gate", f"{ge.qualname}|gate condition", ok, ge.where(n), detail)
         # no other condition restricts the raise
-        others = [c for c in conds[:-1]]
+        others = [c for c in ir.own_conditions(s, pc)[:-1] if c[0][0] != "loop"]
         ctx.ob("C14.R1.unconditional", f"{ge.qualname}|gate not nested", not others, ge.where(n),
                "the gate is evaluated on every run" if not others else
                f"the gate is only evaluated under {', '.join(ir.show(c[0], maxdepth=3) for c in others)}")
